@@ -165,23 +165,6 @@ def record_lru_trace(rnd: random.Random, ms: Optional[int], nkeys: int, length: 
     return evs
 
 
-def _verdicts(r: tlc.TlcResult, n: int, what: str) -> Dict[str, Any]:
-    """Parse ACCEPT/REJECT lines printed by a Trace_* run; every trace must have one."""
-    import re
-    acc, rej = set(), {}
-    for line in r.out.splitlines():
-        m = re.match(r'<<"ACCEPT", (\d+)>>', line)
-        if m:
-            acc.add(int(m.group(1)))
-        m = re.match(r'<<"REJECT", (\d+), (\d+), (.*)>>', line)
-        if m:
-            rej[int(m.group(1))] = {"event": int(m.group(2)), "clauses": m.group(3)}
-    if len(acc) + len(rej) != n:
-        tail = "\n".join(r.out.splitlines()[-40:])
-        raise MachineryError(f"{what}: {len(acc)}+{len(rej)} verdicts for {n} traces\n{tail}")
-    return {"accepted": acc, "rejected": rej}
-
-
 def validate_lru_traces(chk: Check, ntraces: int, length: int) -> None:
     rnd = random.Random(chk.seed * 7919 + 18)
     w = workdir("c18tr")
@@ -199,7 +182,7 @@ def validate_lru_traces(chk: Check, ntraces: int, length: int) -> None:
         r = tlc.run("Trace_C18", str(cfg), env={"IN": str(f)}, workers=1)
         if not r.ok and not r.violated:
             tlc.require_ok(r, f"Trace_C18 size={ms}")
-        v = _verdicts(r, len(traces), f"Trace_C18 size={ms}") if not r.violated else {"accepted": set(), "rejected": {}}
+        v = tlc.verdicts(r, len(traces), f"Trace_C18 size={ms}") if not r.violated else {"accepted": set(), "rejected": {}}
         if r.violated:
             chk.violation({"kind": "lru-trace-invariant", "maxsize": ms, "file": str(f)},
                           {"violated": r.violated, "tlc_tail": r.out.splitlines()[-30:]})
@@ -336,7 +319,7 @@ def template_cache(chk: Check, ntraces: int, length: int) -> None:
                               {"violated": r.violated, "tlc_tail": r.out.splitlines()[-30:]})
                 continue
             tlc.require_ok(r, f"Trace_C18T size={size}")
-            v = _verdicts(r, len(traces), f"Trace_C18T size={size}")
+            v = tlc.verdicts(r, len(traces), f"Trace_C18T size={size}")
             for tid, why in v["rejected"].items():
                 t = traces[tid - 1]
                 chk.violation({"kind": "template-trace", "size": size, "via_component": via,
@@ -364,6 +347,92 @@ def run(tier: str) -> int:
                         "behaviour-relevant state of LRUCache",
                         "template_cache_size=None (documented: unbounded; code: 128) is not exercised as unbounded"]
     return chk.finish()
+
+
+def selftest(tier: str) -> int:
+    """In-process mutation probes (never touch /repo)."""
+    from contextlib import contextmanager
+    from . import boot
+    from .core import run_probes
+    boot.setup()
+    import django_components.util.cache as uc
+    import django_components.template as dt
+
+    @contextmanager
+    def patch(obj, name, new):
+        old = getattr(obj, name)
+        setattr(obj, name, new)
+        try:
+            yield
+        finally:
+            setattr(obj, name, old)
+
+    def evict_mru():
+        orig = uc.LRUCache.set
+
+        def set_(self, key, value):
+            if key not in self.cache and self.maxsize is not None and self.maxsize > 0 \
+                    and len(self.cache) >= self.maxsize:
+                n = self.head.next
+                self._remove(n)
+                del self.cache[n.key]
+            return orig(self, key, value)
+        return patch(uc.LRUCache, "set", set_)
+
+    def get_no_touch():
+        return patch(uc.LRUCache, "get", lambda self, k: self.cache[k].value if k in self.cache else None)
+
+    def off_by_one():
+        orig = uc.LRUCache.set
+
+        def set_(self, key, value):
+            ms = self.maxsize
+            if ms:
+                self.maxsize = ms + 1
+            try:
+                return orig(self, key, value)
+            finally:
+                self.maxsize = ms
+        return patch(uc.LRUCache, "set", set_)
+
+    def stale_backpointer():
+        def rem(self, node):
+            if node.prev is not None:
+                node.prev.next = node.next
+        return patch(uc.LRUCache, "_remove", rem)
+
+    def key_without_class():
+        orig = dt.cached_template
+
+        def ct(template_string, template_cls=None, origin=None, name=None, engine=None):
+            from django.template import Template
+            cache = dt.get_template_cache()
+            t = cache.get(template_string)
+            if t is None:
+                t = (template_cls or Template)(template_string, origin=origin, name=name, engine=engine)
+                cache.set(template_string, t)
+            return t
+        import django_components
+        from contextlib import ExitStack
+
+        @contextmanager
+        def both():
+            with ExitStack() as st:
+                st.enter_context(patch(dt, "cached_template", ct))
+                st.enter_context(patch(django_components, "cached_template", ct))
+                yield
+        return both()
+
+    def body(chk):
+        w = workdir("c18st")
+        from django_components.util.cache import LRUCache  # noqa
+        model_check_and_replay(chk, 3, 2)
+        validate_lru_traces(chk, 10, 40)
+        template_cache(chk, 6, 30)
+
+    return run_probes(PID, [("evict-MRU", evict_mru), ("get-does-not-touch", get_no_touch),
+                            ("size-off-by-one", off_by_one), ("stale-back-pointer", stale_backpointer),
+                            ("template-key-without-class", key_without_class)], body)
 
 
 def replay(path: str) -> int:
